@@ -83,10 +83,26 @@ def default_opaque(F):
         np = f.npath
         if np in GETTERS or np in MUTATORS or np in STRUCT:
             s.add(np)
-        elif np.startswith((CM, WCM, ST, LL, PC, LQ)) and "{closure" not in np:
+        elif np.startswith((CM, WCM, ST, LL, PC, LQ)) and "{closure" not in np and not _compound_method(F, f):
             s.add(np)
     s |= set(graph.WRAPPERS)
     return s
+
+
+def _compound_method(F, f):
+    """A method of one of the primitive types that is not in the anchor tables and is itself written in terms of other methods
+    of the same type (e.g. a `State::replace_dropping` doing is_dropping + set_dropping and building a guard): looked through,
+    not treated as a primitive event."""
+    if f.npath in GETTERS or f.npath in MUTATORS or f.npath in STRUCT:
+        return False
+    pre = f.npath.rsplit("::", 1)[0] + "::"
+    for b in f.blocks:
+        t = b["term"]
+        if t["k"] == "call" and not t["callee"].get("indirect"):
+            cp = norm_path(t["callee"]["path"])
+            if cp.startswith(pre) and cp != f.npath and (cp in GETTERS or cp in MUTATORS):
+                return True
+    return False
 
 
 class AnchorMissing(Exception):
@@ -278,7 +294,7 @@ def flag_opaque(F):
     s = set()
     for f in F.fns.values():
         np = f.npath
-        if np.startswith((CM, WCM, ST, LL, PC, LQ)) and "{closure" not in np:
+        if np.startswith((CM, WCM, ST, LL, PC, LQ)) and "{closure" not in np and not _compound_method(F, f):
             s.add(np)
     s |= {"utils::cc_alloc", "utils::cc_dealloc", "utils::alloc_other", "utils::dealloc_other"}
     s |= set(graph.WRAPPERS)
